@@ -329,11 +329,30 @@ func (hs *serverHandshakeStateGM) verifEvilSendFinished(out []byte, k VerifEvilS
 // VerifEvilClientHandshake runs the GM client handshake (full handshake only); its Finished carries the right
 // verify_data xor-ed with finishedXor.
 func (c *Conn) VerifEvilClientHandshake(finishedXor []byte) error {
+	return c.VerifEvilClientHandshakeK(VerifEvilClient{FinishedXor: finishedXor})
+}
+
+// VerifEvilClient: the deviations of the scripted GM client (it holds its own pre-master secret, so its transcript
+// and its Finished stay consistent with what it actually sent).
+type VerifEvilClient struct {
+	FinishedXor          []byte
+	NPNOnly              bool     // the hello carries next_protocol_negotiation and no ALPN extension
+	OmitNextProto        bool     // no NextProtocol message although the server announced NPN
+	NextProtoTwice       bool     // two NextProtocol messages
+	OmitChangeCipherSpec bool     // Finished in the clear, no ChangeCipherSpec
+	FinishedBeforeCCS    bool     // Finished in the clear, then ChangeCipherSpec
+	FinishedTwice        bool     // a second (protected) Finished
+	ExtraBeforeCCS       [][]byte // complete handshake messages written (and hashed) before ChangeCipherSpec
+	ExtraAfterCCS        [][]byte // complete handshake messages written (and hashed) after ChangeCipherSpec, protected
+}
+
+// VerifEvilClientHandshakeK runs the scripted GM client handshake (full handshake only) with the given deviations.
+func (c *Conn) VerifEvilClientHandshakeK(k VerifEvilClient) error {
 	c.handshakeMutex.Lock()
 	defer c.handshakeMutex.Unlock()
 	c.in.Lock()
 	defer c.in.Unlock()
-	err := c.verifEvilClientHandshakeGM(finishedXor)
+	err := c.verifEvilClientHandshakeGM(k)
 	if err != nil {
 		c.flush()
 	}
@@ -341,7 +360,7 @@ func (c *Conn) VerifEvilClientHandshake(finishedXor []byte) error {
 	return err
 }
 
-func (c *Conn) verifEvilClientHandshakeGM(xor []byte) error {
+func (c *Conn) verifEvilClientHandshakeGM(k VerifEvilClient) error {
 	if c.config == nil || c.config.GMSupport == nil {
 		return errors.New("verif: the scripted client is a GM client")
 	}
@@ -349,6 +368,10 @@ func (c *Conn) verifEvilClientHandshakeGM(xor []byte) error {
 	hello, err := makeClientHelloGM(c.config)
 	if err != nil {
 		return err
+	}
+	if k.NPNOnly {
+		hello.nextProtoNeg = true
+		hello.alpnProtocols = nil
 	}
 	hs := &clientHandshakeStateGM{c: c, hello: hello}
 	// copy of (*clientHandshakeStateGM).handshake, full-handshake branch
@@ -391,7 +414,7 @@ func (c *Conn) verifEvilClientHandshakeGM(xor []byte) error {
 	if err := hs.establishKeys(); err != nil {
 		return err
 	}
-	if err := hs.verifEvilSendFinished(c.clientFinished[:], xor); err != nil {
+	if err := hs.verifEvilSendFinished(c.clientFinished[:], k); err != nil {
 		return err
 	}
 	if _, err := c.flush(); err != nil {
@@ -410,33 +433,71 @@ func (c *Conn) verifEvilClientHandshakeGM(xor []byte) error {
 	return nil
 }
 
-// copy of (*clientHandshakeStateGM).sendFinished; deviation: the verify_data is xor-ed
-func (hs *clientHandshakeStateGM) verifEvilSendFinished(out []byte, xor []byte) error {
+// copy of (*clientHandshakeStateGM).sendFinished with the deviations of k
+func (hs *clientHandshakeStateGM) verifEvilSendFinished(out []byte, k VerifEvilClient) error {
 	c := hs.c
 
+	for _, m := range k.ExtraBeforeCCS {
+		hs.finishedHash.Write(m)
+		if _, err := c.writeRecord(recordTypeHandshake, m); err != nil {
+			return err
+		}
+	}
+	finished := new(finishedMsg)
+	if k.OmitChangeCipherSpec || k.FinishedBeforeCCS {
+		// the Finished goes out in the clear (the pending cipher spec is never activated for writing, or only after)
+		finished.verifyData = verifXor(hs.finishedHash.clientSum(hs.masterSecret), k.FinishedXor)
+		hs.finishedHash.Write(finished.marshal())
+		if _, err := c.writeRecord(recordTypeHandshake, finished.marshal()); err != nil {
+			return err
+		}
+		copy(out, finished.verifyData)
+		if k.FinishedBeforeCCS {
+			if _, err := c.writeRecord(recordTypeChangeCipherSpec, []byte{1}); err != nil {
+				return err
+			}
+		}
+		return nil
+	}
 	if _, err := c.writeRecord(recordTypeChangeCipherSpec, []byte{1}); err != nil {
 		return err
 	}
-	if hs.serverHello.nextProtoNeg {
+	for _, m := range k.ExtraAfterCCS {
+		hs.finishedHash.Write(m)
+		if _, err := c.writeRecord(recordTypeHandshake, m); err != nil {
+			return err
+		}
+	}
+	if hs.serverHello.nextProtoNeg && !k.OmitNextProto {
 		nextProto := new(nextProtoMsg)
 		proto, fallback := mutualProtocol(c.config.NextProtos, hs.serverHello.nextProtos)
 		nextProto.proto = proto
 		c.clientProtocol = proto
 		c.clientProtocolFallback = fallback
 
-		hs.finishedHash.Write(nextProto.marshal())
-		if _, err := c.writeRecord(recordTypeHandshake, nextProto.marshal()); err != nil {
-			return err
+		n := 1
+		if k.NextProtoTwice {
+			n = 2
+		}
+		for i := 0; i < n; i++ {
+			hs.finishedHash.Write(nextProto.marshal())
+			if _, err := c.writeRecord(recordTypeHandshake, nextProto.marshal()); err != nil {
+				return err
+			}
 		}
 	}
 
-	finished := new(finishedMsg)
-	finished.verifyData = verifXor(hs.finishedHash.clientSum(hs.masterSecret), xor)
+	finished.verifyData = verifXor(hs.finishedHash.clientSum(hs.masterSecret), k.FinishedXor)
 	hs.finishedHash.Write(finished.marshal())
 	if _, err := c.writeRecord(recordTypeHandshake, finished.marshal()); err != nil {
 		return err
 	}
 	copy(out, finished.verifyData)
+	if k.FinishedTwice {
+		if _, err := c.writeRecord(recordTypeHandshake, finished.marshal()); err != nil {
+			return err
+		}
+	}
 	return nil
 }
 
